@@ -196,6 +196,8 @@ def handleFiles (args : List String) (impl : String) : String :=
       ⟨pathRepr (headerPath f.path), toString f.content.length, toString f.content.length,
        hex16 (fnv f.content), octal f.mode, "1"⟩
     let verdict :=
+      -- the harness iterates the un-reparsed value `build()` returned as well; it answers `mem-differs …` when that differs
+      if impl.startsWith "mem-differs" then "fails:unreparsed-value-differs" else
       if dup ∨ tooLong then
         -- which of two files with one destination is kept is not the property's business; that every item handed out has the
         -- recorded size and the recorded digest is (seed C08-7: the second content under the first one's digest)
